@@ -295,7 +295,7 @@ def impl(case):
                     int(n.is_drum)] for n in q.notes)
     texts = sorted([a.quantized_step, [ord(c) for c in a.text]] for a in q.text_annotations
                    if a.annotation_type == 1)
-    return ['OK', 1 if inp.get('canon') else None, notes, texts, q.total_quantized_steps, extract(op, inp, q)]
+    return ['OK', 1 if inp.get('canon') is True else None, notes, texts, q.total_quantized_steps, extract(op, inp, q)]
 
 
 # ---------------------------------------------------------------- model
@@ -819,6 +819,40 @@ def encode_perf(notes, nb, ms, start):
     return out
 
 
+def _doubled_notes(rng, start, unit, nb):
+    """notes in which one pitch sounds twice at once WITHOUT nesting (the earlier-started note ends first or together:
+    first-in-first-out pairing of NOTE_OFFs, which is what _to_sequence does, gives the notes back).  Two patterns
+    whose mis-pairing is visible after re-extraction: (a) equal start, different velocity bins; (b) different
+    starts and a note of another pitch, started between them, ending on the step of the first NOTE_OFF."""
+    p = rng.choice([60, 62, 67, rng.randint(0, 127)])
+    q = rng.choice([x for x in (64, 65, 72, 48, rng.randint(0, 127)) if x != p])
+    s = start + rng.randint(0, 3 * unit)
+    out = []
+    if nb and rng.random() < 0.5:                                   # (a)
+        e1 = s + rng.randint(1, 2 * unit)
+        e2 = e1 + rng.choice([0, 1, unit])
+        v1, v2 = rng.sample([1, 40, 70, 100, 127], 2)
+        while _vbin(v1, nb) == _vbin(v2, nb) and nb > 1:
+            v1, v2 = rng.sample(range(1, 128), 2)
+        out += [(p, v1, s, e1), (p, v2, s, e2)]
+    else:                                                           # (b)
+        s2 = s + rng.randint(2, unit + 2)
+        sc = rng.randint(s + 1, s2 - 1)
+        e1 = s2 + rng.randint(1, unit + 1)
+        e2 = e1 + rng.choice([0, 1, 2, unit])
+        v = rng.choice([1, 64, 100])
+        out += [(p, v, s, e1), (q, rng.choice([v, 30, 127]), sc, e1), (p, rng.choice([v, 90]), s2, e2)]
+    last = max(n[3] for n in out)
+    for _ in range(rng.randint(0, 4)):                              # unrelated notes of other pitches
+        pi = rng.choice([x for x in (50, 55, 76, 79, rng.randint(0, 127)) if x not in (p, q)])
+        qs = start + rng.randint(0, last - start + unit)
+        qe = qs + rng.randint(1, 2 * unit)
+        if any(k[0] == pi and k[2] < qe and qs < k[3] for k in out):
+            continue
+        out.append((pi, rng.randint(1, 127), qs, qe))
+    return out
+
+
 def direct_perf(rng, op):
     if op == 'perf':
         res = rng.choice(SPSS)
@@ -836,11 +870,18 @@ def direct_perf(rng, op):
         p = {'bins': rng.choice([0, 1, 2, 8, 32, 127, rng.randint(0, 127)]),
              'max_shift_quarters': rng.choice([1, 2, 4, 4, 8]), 'instrument': rng.choice([None, None, 0])}
         ms = res * p['max_shift_quarters']
-    notes = _poly_notes(rng, s0, unit, rng.randint(1, 9))
+    # 'wide': canonical in the wider reading (a pitch may sound twice at once, un-nested): the oracle demands the
+    # identity, but the proved boolean canonical_perf (which forbids re-opening an open pitch) is not asserted
+    canon = True
+    if rng.random() < 0.3:
+        notes = _doubled_notes(rng, s0, unit, p['bins'])
+        canon = 'wide'
+    else:
+        notes = _poly_notes(rng, s0, unit, rng.randint(1, 9))
     ev = encode_perf(notes, p['bins'], ms, s0)
     r = {'velocity': rng.choice([100, 64, 1]), 'instrument': 0,
          'obj_program': rng.choice([None, None, 7]), 'obj_is_drum': rng.choice([None, None, True, False])}
-    return _case(op, ev, s0, res, gen_qpm(rng), ts or (4, 4), spb, p, r, True)
+    return _case(op, ev, s0, res, gen_qpm(rng), ts or (4, 4), spb, p, r, canon)
 
 
 def direct_noteperf(rng):
@@ -1012,6 +1053,13 @@ def corpus():
     ev = [[4, 7], [1, 60], [3, 3], [3, 1], [2, 60], [4, 2], [1, 60], [1, 64], [3, 3], [3, 3], [3, 1], [2, 60], [2, 64]]
     out.append({'op': 'perf', 'input': {'events': ev, 'start': 31, 'res': 31, 'p': dict(fp), 'r': dict(pr),
                                         'canon': True}})
+    # one pitch sounding twice at once, un-nested (NOTE_OFFs pair first-in-first-out): (a) equal start, two bins;
+    # (b) different starts + another pitch ending on the step of the first NOTE_OFF
+    out.append({'op': 'perf', 'input': {'events': encode_perf([(60, 10, 2, 5), (60, 120, 2, 7)], 8, 100, 0), 'start': 0,
+                                        'res': 100, 'p': dict(fp, max_shift=100), 'r': dict(pr), 'canon': 'wide'}})
+    out.append({'op': 'perf', 'input': {'events': encode_perf([(60, 100, 0, 6), (64, 100, 1, 6), (60, 100, 2, 8)], 0, 100, 0),
+                                        'start': 0, 'res': 100, 'p': dict(fp, bins=0, max_shift=100), 'r': dict(pr),
+                                        'canon': 'wide'}})
     out.append({'op': 'perf', 'input': {'events': [[1, 60], [3, 100], [3, 5], [2, 60]], 'start': 0, 'res': 250,
                                         'p': dict(fp, bins=0, max_shift=100), 'r': dict(pr), 'canon': True}})
     out.append({'op': 'metric', 'input': {'events': [[4, 1], [1, 60], [3, 2], [2, 60]], 'start': 8, 'res': 4,
